@@ -110,6 +110,15 @@ def injections(world, ep, sa):
                 ('max', 2 ** 32 - 1)]
     mids_res = [('exp-1', sa.my_msg_id - 1), ('exp', sa.my_msg_id), ('exp+1', sa.my_msg_id + 1), ('0', 0),
                 ('max', 2 ** 32 - 1)]
+    # every notification the state machine reacts to somewhere, alone in the clear, with the expected Message ID
+    for nt, data in ((1, b''), (4, b''), (5, b'\x02'), (7, b''), (9, b'\0\0\0\1'), (11, b'\1\2\3\4'), (14, b''), (17, b'\0\x13'),
+                     (34, b''), (35, b''), (36, b''), (37, b''), (38, b''), (39, b''), (40, b''), (41, b''), (44, b''),
+                     (16384, b''), (16388, b'a' * 20), (16389, b'b' * 20), (16390, b'c' * 32), (16391, b''), (16393, b'')):
+        t, b = F.chain([(F.NOTIFY, F.n_body(nt, data))])
+        for exch in (F.IKE_AUTH, F.CCSA, F.INFO):
+            for rflag, mid in ((0, sa.peer_msg_id), (F.F_R, sa.my_msg_id)):
+                yield ('cleartext:exch=%d:%s:mid=exp:notify-%d' % (exch, 'res' if rflag else 'req', nt),
+                       F.clear_raw(spi_i, spi_r, exch, iflag | rflag, mid, t, b))
     for exch in (F.INIT, F.IKE_AUTH, F.CCSA, F.INFO, 0, 255):
         for rflag, mids in ((0, mids_req), (F.F_R, mids_res)):
             if exch == F.INIT and not rflag:
